@@ -627,6 +627,8 @@ class Interp:
                 base[self.ev(t.slice)] = val
             elif isinstance(base, Rec) and self._dunder(base, '__setitem__', self.ev(t.slice), val)[0]:
                 pass
+            elif isinstance(base, PyModel) and hasattr(base, '__setitem__'):
+                base[self.ev(t.slice)] = val
             else:
                 raise Unmodelled(f'subscript store on {base!r}')
         else:
